@@ -4,8 +4,11 @@
    detector.  What is proved is the ownership protocol of the hubs: while a
    callback runs with a deliverer's message, that deliverer (the owner of the
    buffer) is blocked and can do nothing but wait for the callback to end, and
-   nobody else is handed the message. *)
-From P2PV Require Import Lib.Base Model.Hub Proofs.HubP.
+   nobody else is handed the message; and the buffer protocol of the bounded queue
+   (swarmutil.Queue): every buffer is in exactly one place, Deliver writes only
+   into a buffer taken from the freelist, a buffer handed to a callback stays
+   out of circulation until that callback returns, and no buffer is lost. *)
+From P2PV Require Import Lib.Base Model.Hub Proofs.HubP Model.Queue Model.QueueBuf Proofs.QueueBufP.
 
 (* while receiver r's callback runs with deliverer d's message, d stays committed
    to r whatever else happens in the system; the only event that releases it is
@@ -34,6 +37,39 @@ Theorem C14_buffer_returned_after_callback : forall pre d h, hrun hub0 (pre ++ [
   exists r, In (HMeet r d) pre /\ In (HCbEnd r) pre.
 Proof. exact ok_after_callback. Qed.
 
+(* ---- swarmutil.Queue: the buffers ---- *)
+
+(* in every reachable state (any interleaving of Deliver, the two halves of any
+   number of concurrent Receives, Purge and Close) every buffer is in exactly one
+   place: the freelist, the queue, or the hands of one running callback *)
+Theorem C14_queue_buffers_in_one_place : forall cap mtu evs s os,
+  brun (new_bq cap mtu) evs = Some (s, os) ->
+  NoDup (b_free s ++ map fst (b_queue s) ++ b_busy s) /\
+  length (b_free s ++ map fst (b_queue s) ++ b_busy s) = b_cap s.
+Proof. intros cap mtu evs s os H. exact (brun_inv evs _ _ _ (binv_new cap mtu) H). Qed.
+
+(* the buffer a Deliver writes into is neither queued nor being read by a callback *)
+Theorem C14_queue_deliver_writes_only_free : forall cap mtu evs s os m s' b,
+  brun (new_bq cap mtu) evs = Some (s, os) -> bstep s (BDeliver m) = Some (s', BWrote b) ->
+  ~ In b (b_busy s) /\ ~ In b (map fst (b_queue s)).
+Proof. exact deliver_writes_only_free. Qed.
+
+(* a buffer handed to a callback stays with it until that callback returns *)
+Theorem C14_queue_busy_until_returned : forall s e s' o b,
+  BInv s -> In b (b_busy s) -> bstep s e = Some (s', o) -> e <> BRecvEnd b ->
+  In b (b_busy s') /\ ~ In b (b_free s') /\ ~ In b (map fst (b_queue s')).
+Proof. exact busy_until_returned. Qed.
+
+(* no buffer is lost: with no callback running, free + queued = capacity *)
+Theorem C14_queue_no_slot_leak : forall cap mtu evs s os,
+  brun (new_bq cap mtu) evs = Some (s, os) -> b_busy s = [] ->
+  length (b_free s) + length (b_queue s) = cap.
+Proof. exact no_slot_leak. Qed.
+
 Print Assumptions C14_owner_blocked_during_callback.
 Print Assumptions C14_single_reader.
 Print Assumptions C14_buffer_returned_after_callback.
+Print Assumptions C14_queue_buffers_in_one_place.
+Print Assumptions C14_queue_deliver_writes_only_free.
+Print Assumptions C14_queue_busy_until_returned.
+Print Assumptions C14_queue_no_slot_leak.
